@@ -205,7 +205,7 @@ def _work(args):
     out = []
     for _ in range(40):
         exprs, desc, shapes, kw, used = one_case(rng)
-        tensors = [None if s is None else np.zeros(s) for s in shapes]
+        tensors = [None if s is None else np.broadcast_to(np.zeros(()), s) for s in shapes]
         zs = {n: z3.Int(n) for n in used}
         cons = [v > 0 for v in zs.values()] + [zs[n] == v for n, v in kw.items()]
         for e, s in zip(exprs, shapes):
@@ -256,7 +256,7 @@ def _work(args):
 
 def replay(desc, shapes, kw):
     import einx
-    tensors = [None if s is None else np.zeros(s) for s in shapes]
+    tensors = [None if s is None else np.broadcast_to(np.zeros(()), s) for s in shapes]
     r = {}
     for name in ("solve_axes", "solve_shapes", "matches"):
         o = harness.outcome(lambda: getattr(einx, name)(desc, *tensors, **kw), 15)
@@ -298,7 +298,7 @@ def constraint_rank_sequences():
             for order in (forms, forms[::-1]):
                 got = {}
                 for label, v in order:
-                    o = harness.outcome(lambda: f(desc, np.zeros(shape), **{name: v}), 15)
+                    o = harness.outcome(lambda: f(desc, np.broadcast_to(np.zeros(()), shape), **{name: v}), 15)
                     got[label] = ("ok", str(o[1])) if o[0] == "ok" else (o[0], o[1] if len(o) > 1 else "")
                 key = (desc, entry, shape)
                 out.append((key, "fwd" if order is forms else "rev", got))
@@ -340,7 +340,7 @@ def rank_value_independence():
         ("a b..., b...", [(2, 3, 4), None], ["a"]),
     ]
     for desc, shapes, names in scenarios:
-        tensors = [None if s is None else np.zeros(s) for s in shapes]
+        tensors = [None if s is None else np.broadcast_to(np.zeros(()), s) for s in shapes]
         dims = sorted({d for s in shapes if s is not None for d in s})
         assignments = [("all equal 2", {n: 2 for n in names}), ("all distinct", {n: 2 + i for i, n in enumerate(names)}), ("all distinct, reversed", {n: 2 + len(names) - i for i, n in enumerate(names)}),
                        ("equal to a tensor dimension", {n: dims[i % len(dims)] for i, n in enumerate(names)}), ("all equal 3", {n: 3 for n in names})]
